@@ -54,6 +54,13 @@ func main() {
 			os.Exit(2)
 		}
 		fmt.Print(zv.DumpTypeTable(p))
+	case "dump-consts":
+		p, err := zv.Load("/repo", "", "")
+		if err != nil {
+			fmt.Println(err)
+			os.Exit(2)
+		}
+		fmt.Print(zv.DumpConstTable(p))
 	case "dump-cmps":
 		p, err := zv.Load("/repo", "", "")
 		if err != nil {
